@@ -209,7 +209,8 @@ def run(tier, replay=None):
                        'outcomes': {f'{w}->{k}': c for (w, k), c in sorted(outcomes.items())},
                        'rule': 'Config.tla grammar: one base dictionary + every single perturbation of every documented key at connection, auth and protect-entry level '
                                '(valid alternatives, missing, ill-typed: string / integer / negative / boolean / null / list / map, unknown names, out of range) and top-level '
-                               'shapes; verdict ok (must load to exactly the normal form) / err (must raise ConfigurationError) / either; pairs of perturbations judged on the '
+                               'shapes; ordered pairs of protect entries (AH / ESP, default / explicit / reversed algorithm lists) within one connection and across two '
+                               'connections - an entry means the same whatever was loaded before it; verdict ok (must load to exactly the normal form) / err (must raise ConfigurationError) / either; pairs of perturbations judged on the '
                                'outcome class; any other exception is a violation', 'samples': samples, 'exhaustive': tier == 'thorough'})
     v.assumptions += ['getaddrinfo served by the harness (numeric addresses and one fixed name)', 'listening address 192.168.0.1']
     return v.finish()
